@@ -56,7 +56,7 @@ def run(ctx):
     thorough = ctx.tier == "thorough"
     counts = {}
     drawn = 0
-    for fam, n in (("path", 2), ("arc", 1), ("shape", 1), ("viewport", 1)):
+    for fam, n in (("path", 2), ("closes", 5 if not thorough else 6), ("arc", 1), ("shape", 1), ("viewport", 1)):
         res = ctx.tlc("SvgPath", None, workers=16, cfg_text=CFG % (fam, n, "Init"), timeout=900)
         k, c = replay(ctx, res, "c18", fam)
         counts[fam] = k
@@ -80,7 +80,7 @@ def run(ctx):
     return ctx.finish("model_checking", {
         "exhaustive": True, "evaluations": total, "distinct_nontrivial": total, "documents_drawn": drawn, "families": counts,
         "rule": "path: every sequence of <= 2 commands over 133 (letter, abs/rel, 1-2 argument groups) combinations starting with a moveto, "
-                "+ seeded simulation of 3-4 (thorough 5) commands, each drawn in 7 number syntaxes; arc: 768 quarter-turn arcs + degenerate "
+                "+ seeded simulation of 3-4 (thorough 5) commands, each drawn in 7 number syntaxes; closes: every sequence of <= 5 commands over {L, l, h, Z, M} (what follows a closepath); arc: 768 quarter-turn arcs + degenerate "
                 "cases; shape: 186 rect/circle/ellipse/line/polyline/polygon; viewport: 1408 viewBox x viewport x preserveAspectRatio; "
                 "refs: every reference graph over 3 definitions (1331) x 6 reference kinds.",
     }, assumptions=[
